@@ -59,7 +59,10 @@ def run(c):
         for cn in (("A", "Z2040") if c.quick else ("A", "Z2040", "A3", "B")):
             extra.append({"img": img, "lz": True, "ops": [{"op": "sign", "c": cn}, {"op": "verify", "c": cn}, {"op": "reparse", "c": "-"}, {"op": "verify", "c": cn}, {"op": "verify", "c": "At"},
                                                          {"op": "sign", "c": "B"}, {"op": "verify", "c": cn}, {"op": "verify", "c": "B"}]})
-    scen = [dict({"sc": i, "img": h["img"], "ops": h["ops"]}, **({"lz": True} if h.get("lz") else {})) for i, h in enumerate(hs + extra)]
+    # a signer that takes longer than a second: what is signed and what is embedded are the same bytes however long the signer takes
+    for img, cn in (("u0", "A"), ("u5", "B")):
+        extra.append({"img": img, "slow": True, "ops": [{"op": "sign", "c": cn}, {"op": "verify", "c": cn}, {"op": "reparse", "c": "-"}, {"op": "verify", "c": cn}, {"op": "verify", "c": "At"}]})
+    scen = [dict({"sc": i, "img": h["img"], "ops": h["ops"]}, **{k: True for k in ("lz", "slow") if h.get(k)}) for i, h in enumerate(hs + extra)]
     env = dict(os.environ, VERIF_FIXTURES=os.path.join(vf.VERIF, "fixtures"))
     res, deaths = c.run_worker("pesign", scen, env=env, timeout=1800)
     events, owner = [], []
@@ -80,8 +83,9 @@ def run(c):
         facts = [k for k in ("parsed", "prefix_equal", "pad_zero", "lib_digest_equal") if out and not out.get(k, True)]
         nsig = sum(1 for o in s["ops"][:events[i:i + 1] and 99] if o["op"] == "sign")
         key = "%s:%s:%s:%s" % (e.get("op"), e.get("res"), e.get("res_reparsed", "-"), ",".join(facts) or ("dd/entries" if out else "-"))
+        key += "".join(":" + k for k in ("slow", "lz") if s.get(k))      # (the special signer / signature-value histories are classes of their own)
         seen[key] = seen.get(key, 0) + 1
-        if seen[key] <= 2:
+        if c.want_reproduction(key, seen[key]):
             c.reproduce_trace("pesign", s["sc"], "PeSignTrace", "PeSignTrace.cfg", ("sc", "panic", "ev", "i", "img", "err"), env=env)
         c.report(key, "step %s(%s) -> %s / after re-parse %s; projection of Bytes(): %s" % (e.get("op"), e.get("c"), e.get("res"), e.get("res_reparsed"), json.dumps(out)[:300]),
                  dict({"scenario": s, "event": e}, **c.rp("pesign", s, validate=("PeSignTrace", "PeSignTrace.cfg"), strip=("sc", "panic", "ev", "i", "img", "err"))))
